@@ -243,4 +243,52 @@ theorem C15_code_has_option_default (ini : Ini) (superHasOption : String → Str
     raw_has_option Atsim.strip superHasOption ini.sections "Variables" "" k = superHasOption "" k := by
   constructor <;> simp [raw_has_option]
 
+open Atsim.Gen.Logic in
+/-- **code tie**: `options` of a section other than `[Variables]` lists that section's OWN keys, in the order of its entries, and nothing of `[Variables]`
+(the model's `sectionKeys` under `currentCfg`); a section that is absent is `NoSectionError`, never an empty list.  This is what `for k in cp[section]`,
+`--list-items` and the duplicate check iterate over in the code as written. -/
+theorem C15_code_options (ini : Ini) (s : String)
+    (hd : ini.sections.Pairwise (fun a b => a.1 ≠ b.1)) (hv : s ≠ "Variables") :
+    raw_options ini.sections ini.vars "Variables" s =
+      (match ini.sections.find? (fun p => p.1 == s) with
+       | some _ => .ok (sectionKeys currentCfg ini s)
+       | none => .error RawErr.noSection) := by
+  have h2 : (s == "Variables") = false := by simpa using hv
+  simp only [raw_options, sectionKeys, currentCfg, h2, lookupLast_eq_find _ _ hd]
+  cases hf : ini.sections.find? (fun p => p.1 == s) with
+  | none => simp
+  | some q => obtain ⟨n, kvs⟩ := q; simp
+
+open Atsim.Gen.Logic in
+/-- for `[Variables]` itself the keys are those of the default section, whatever the other sections hold -/
+theorem C15_code_options_default (ini : Ini) :
+    raw_options ini.sections ini.vars "Variables" "Variables" = .ok (ini.vars.map (·.1)) := by
+  simp [raw_options]
+
+open Atsim.Gen.Logic in
+/-- corollary for the code as written: a key of `[Variables]` that no section repeats is not among the options of any other section -/
+theorem C15_code_options_no_variable (ini : Ini) (s k : String) (ks : List String)
+    (hd : ini.sections.Pairwise (fun a b => a.1 ≠ b.1)) (hv : s ≠ "Variables")
+    (hk : ∀ sec ∈ ini.sections, ∀ kv ∈ sec.2, kv.1 ≠ k)
+    (h : raw_options ini.sections ini.vars "Variables" s = .ok ks) : k ∉ ks := by
+  rw [C15_code_options ini s hd hv] at h
+  cases hf : ini.sections.find? (fun p => p.1 == s) with
+  | none => rw [hf] at h; simp at h
+  | some q =>
+    rw [hf] at h
+    obtain ⟨n, kvs⟩ := q
+    have hm := List.mem_of_find?_eq_some hf
+    simp only [sectionKeys, currentCfg, hf, if_true, Except.ok.injEq] at h
+    subst h
+    intro hin
+    rw [List.mem_map] at hin
+    obtain ⟨kv, hkv, rfl⟩ := hin
+    exact hk _ hm kv hkv rfl
+
+open Atsim.Gen.Logic in
+/-- non-vacuity: a file with a variable `nr` and a `[Tabulation]` section that has its own `target` only -/
+example : raw_options [("Tabulation", [("target", "LAMMPS")])] [("nr", "5")] "Variables" "Tabulation" = .ok ["target"] ∧
+    raw_options [("Tabulation", [("target", "LAMMPS")])] [("nr", "5")] "Variables" "Pair" = .error RawErr.noSection := by
+  constructor <;> simp [raw_options, lookupLast]
+
 end Atsim.C15
